@@ -252,7 +252,19 @@ def context_lookup(f, p):
         return False
     if context_accessor(f, p):
         return False
-    return not any(EXPR in f.ty_s(b["locals"][i]["ty"]) for i in range(1, b["arg_count"] + 1))
+    if any(EXPR in f.ty_s(b["locals"][i]["ty"]) for i in range(1, b["arg_count"] + 1)):
+        return False
+    # a method that reaches the evaluator evaluates sub-expressions (handed over behind an iterator, say): not a lookup
+    key = ("reaches_evaluator", getattr(f, "path", id(f)))
+    if key not in _comp_memo:
+        ev = find_evaluator(f)
+        reach = set()
+        if ev:
+            for d_, b_ in f.bodies.items():
+                if not b_.get("parent") and _receiver_component(f, b_) and ev[0] in reachable_local(f, [d_]):
+                    reach.add(d_)
+        _comp_memo[key] = reach
+    return p not in _comp_memo[key]
 
 
 def sym_fields(it, adt, variant, prefix):
